@@ -314,7 +314,7 @@ def space(kind, tier):
         # MANY short pipelines through the real main loop (bounded buffers, windows and sampled statistics only matter beyond
         # some count); the count follows the constants of the simulator / executor sources (mc/scale.py)
         from .. import scale as _scale
-        n, info = _scale.size(["simulator.py", "executor/", "workload/runtime_status", "workload/pipeline"], 240 if q else 1200, 140000, factor=1.25)
+        n, info = _scale.size(["simulator.py", "executor/", "workload/runtime_status", "workload/pipeline"], 240 if q else 1200, 30000 if q else 140000, factor=1.25)
         combo = tuple((("I" if i % 25 == 0 else "B"), i // 8, "single", ("s1",) if i % 2 else ("s2",)) for i in range(n))
         for algo, cfg in (("naive", (16, 1, 4, True, False)), ("priority", (1, 160, 1600, True, False))):
             if algo == "priority" and n > 20000:
